@@ -393,8 +393,23 @@ func c20Returns(drv *core.Driver, body []jr.Dir, cfg c20Cfg) (string, string, *c
 			}
 			return t
 		}
+		// a return is a ratio of values: it is undefined (knut prints NaN or +-Inf) when the
+		// portfolio is empty or overdrawn at the start of the period or on a day inside it
+		undefined := false
+		for _, d := range days {
+			if d.Before(prevEnd) || d.After(p.E) {
+				continue
+			}
+			vd, _ := portfolioValues(l, cfg, d)
+			if sum(vd) <= 1e-9 {
+				undefined = true
+			}
+		}
+		if (math.IsNaN(got) || math.IsInf(got, 0)) && !undefined {
+			return "C20:returns-not-a-number", fmt.Sprintf("period ending %s: %s%% although the portfolio value is positive throughout", ref.ISO(p.E), m[2]) + ctx(), out
+		}
 		switch {
-		case perfTrx:
+		case perfTrx, undefined && (math.IsNaN(got) || math.IsInf(got, 0)):
 		case !priceChange:
 			// only external flows (or nothing) at unchanged prices: 0 %
 			if math.Abs(got) > 0.0500001 {
@@ -568,6 +583,6 @@ func init() {
 		Rule: "every journal of <= N directives over {deposits in CHF/USD/AAPL, withdrawal, transfer between asset accounts, salary, dividend with @performance, two price series} x 3 dates (period ends fall on days without directives) x valuation {CHF,USD} x intervals x --account/--commodity filters x universe file x -m; " +
 			"weights: every cell compared with value/total of the reference mark-to-market values (the same reference C03 validates against `balance -v`), groups = sum of members, columns = period ends with holdings; returns: exactly one line per period of the reference partition, 0% for periods without price change, end/start-1 for periods without flows (to the printed precision); non-trivial = runs that produce a report",
 		Assumptions: []string{"returns of periods that mix flows and price changes, or contain @performance transactions, are only checked for presence and format (the statement fixes two cases)",
-			"weights whose total value is zero are skipped", "float comparisons at 2e-6 (weights) and the printed 0.1% precision (returns)"},
+			"weights whose total value is zero are skipped", "returns of periods in which the portfolio is empty or overdrawn at the start or on a day inside are undefined (knut prints NaN/Inf) and only checked for presence", "float comparisons at 2e-6 (weights) and the printed 0.1% precision (returns)"},
 	})
 }
